@@ -184,7 +184,7 @@ def showErr : Err → String
   | .oob w => s!"ERR:oob:{w.replace " " "_"}"
   | .uninit w => s!"ERR:uninit:{w}"
 
-def doSym (N : Nat) (row col : Array Nat) (val : Array Rat) (orow ocol : Option (Array Nat)) (oval : Option (Array Rat)) : String :=
+def doSym (N : Nat) (row col : Array Nat) (val : Array Rat) (hasObs : Bool) (orow ocol : Option (Array Nat)) (oval : Option (Array Rat)) : String :=
   let c : Csr Rat := ⟨row, col, val⟩
   let model := symmetrizeCsr N c
   let modelS := match model with
@@ -204,7 +204,10 @@ def doSym (N : Nat) (row col : Array Nat) (val : Array Rat) (orow ocol : Option 
     let nrm := (out.normalise).valP.foldl (· + ·) 0
     let sh (b : Option (Nat × Nat)) := match b with | none => "ok" | some nm => s!"BAD:n={nm.1}:m={nm.2}"
     s!"cmp={cmp} symm={sh symm} half={sh half} tot={if tin = tout then "ok" else s!"BAD:in={showRat tin}:out={showRat tout}"} one={if tout = 0 || nrm = 1 then "ok" else "BAD"}"
-  | _, _, _ => s!"cmp=noobs model={modelS}"
+  | _, _, _ =>
+    -- an observation that does not parse (negative or huge column indices, non-finite values: cells of the malloc'ed
+    -- result the routine never wrote) is a failure of the routine, not a missing observation
+    if hasObs then s!"cmp=BAD:garbage-in-output symm=BAD:garbage-in-output:model={modelS}" else s!"cmp=noobs model={modelS}"
 
 /-! ### VP tree -/
 partial def parseVp (cs : List Char) : Option (VpNode Rat × List Char) :=
@@ -435,9 +438,9 @@ def answer (line : String) : String :=
   | "sym" => match nats "row", field? fs "col", field? fs "val" with
     | some r, some cS, some vS =>
       match natsA cS, ratsA vS with
-      | some c, some v => doSym N r c v (nats "o.row") (nats "o.col") (rats "o.val")
+      | some c, some v => doSym N r c v (field? fs "o.row").isSome (nats "o.row") (nats "o.col") (rats "o.val")
       | _, _ => "bad-case"
-    | some r, none, none => doSym N r #[] #[] (nats "o.row") (nats "o.col") (rats "o.val")
+    | some r, none, none => doSym N r #[] #[] (field? fs "o.row").isSome (nats "o.row") (nats "o.col") (rats "o.val")
     | _, _, _ => "bad-case"
   | "vps" => match rats "X" with
     | some x => doVps N D (nat "k") x ((nats "rnd").getD #[]) (((field? fs "q") >>= (parseNats · ",")).getD []) (nats "o.items") (field? fs "o.tree") (field? fs "o.r")
